@@ -17,8 +17,10 @@ CLAIMED["C01"] = dict(engine="split", design="4 C01",
         "exceptions are unreachable thanks to the regex look-ahead, proved on the lexer model); tied to /repo by differential "
         "correspondence of Splitter/parse_string on exhaustive token sequences, mutations, garbage and size-scaled inputs, the lexer "
         "against re.finditer on the regex read from the source, and a Python oracle running the default parse and write stacks.",
-   note="partial: the default parse/write stacks are covered by the oracle and by C05/C06/C10/C11's models, the theorem here is about "
-        "the splitter; Python recursion depth and memory are environment limits observed by the size-scaled stream only",
+   note="also proved over the composed model (Model/Pipeline.v: splitter, resolve, remove-enclosing, add-enclosing, writer): parse_string and "
+        "write_string return for every text, no block is dropped, failed blocks carry raw text; that composed model is compared with "
+        "write_string(parse_string(text)) on every run (op 151); Python recursion depth and memory are environment limits observed by the "
+        "size-scaled stream only",
    technique="Coq proof (state-machine invariant over fold_left) + differential correspondence via extracted model")
 CLAIMED["C03"] = dict(engine="split", design="4 C03",
    text="Coq theorem for ALL input texts: the raw texts of the emitted blocks tile the scanned text with whitespace-only gaps and each "
